@@ -22,7 +22,7 @@ def features(sql, dialect):
     f = {"mixed_comma_join_names": set(), "select_subquery_tables": set(), "lateral_view_aliases": set(),
          "rename_old": set(), "rename_new": set(), "having_subquery_tables": set(), "parsed": False,
          "stmt_types": [], "same_alias_subqueries": set(), "case_subquery": False, "n_rename_pairs": 0,
-         "case_subquery_aliases": set(), "subquery_aliases": set()}
+         "case_subquery_aliases": set(), "subquery_aliases": set(), "select_has_subquery": False}
     try:
         tree = Linter(config=FluffConfig(overrides={"dialect": d})).parse_string(sql).tree
     except Exception:
@@ -61,6 +61,7 @@ def features(sql, dialect):
     for sce in tree.recursive_crawl("select_clause_element"):
         for sub in sce.recursive_crawl("select_statement"):
             f["select_subquery_tables"] |= tables_in(sub)
+            f["select_has_subquery"] = True
         if any(True for _ in sce.recursive_crawl("case_expression")) and any(True for _ in sce.recursive_crawl("select_statement")):
             f["case_subquery"] = True
             a = sce.get_child("alias_expression")
